@@ -14,13 +14,19 @@ WITNESSES = {
     "offset": lambda: "\n".join(["let x = 5"] + ["x"] * 16400 + ["if true then 111 else 222"]) + "\n",
     "fficallargs": lambda: "\n".join(["let x = 1"] + ["sin(x)"] * N) + "\n",
     "addstring": lambda: "\n".join(["let x = 1"] + ["type(x)"] * (N + 1)) + "\n",
+    # slow ones (10-50 minutes in a debug build)
+    "callargs": lambda: "let xx = 1\nlet yy = 9\nfn ffn(%s, qq) = p1\nffn(%s)\n" % (", ".join("p%d" % i for i in range(N)), ", ".join(["xx", "yy"] + ["xx"] * (N - 1))),
+    "structidx": lambda: "\n".join("struct SSt%d { a: Scalar }" % i for i in range(N + 1)) + "\nlet xx = 1\nSSt%d { a: xx }\n" % N,  # prints SSt0 { a: 1 }
+    "structfields": lambda: "let xx = 1\nlet yy = 9\nstruct SSt { %s }\nlet sst = SSt { %s }\nsst.f%d\n" % (", ".join("f%d: Scalar" % i for i in range(N + 1)), ", ".join(["f%d: xx" % i for i in range(N)] + ["f%d: yy" % N]), N),
+    "functionidx": lambda: "let xx = 1\n" + "\n".join("fn ggn%d() = xx" % i for i in range(N + 1)) + "\nggn%d()\n" % N,
 }
+SLOW = {"upvalue", "callargs", "structidx", "functionidx"}
 
 if __name__ == "__main__":
     which = sys.argv[1] if len(sys.argv) > 1 else "all"
     binary = sys.argv[2] if len(sys.argv) > 2 else "/repo/target/debug/numbat"
     for name, gen in WITNESSES.items():
-        if which not in ("all", name):
+        if which not in ("all", "fast", name) or (which in ("all", "fast") and name in SLOW and which != "all"):
             continue
         with tempfile.NamedTemporaryFile("w", suffix=".nbt", delete=False) as f:
             f.write(gen())
